@@ -84,3 +84,48 @@ func utf8First(d *Bytes) (r *Term, width *Term) {
 	width = Ite(empty, CI(0), w)
 	return
 }
+
+// utf8Cut: the byte offset at which the first p runes of d end (len(d) when d has at most p runes) and the rune
+// count of d, counting as `range` over a string does (an invalid byte is one rune of width 1).
+func utf8Cut(d *Bytes, p int) (off *Term, count *Term, ok bool) {
+	d = d.Norm()
+	n := 0
+	if d.Len.IsConst() {
+		n = int(d.Len.Val)
+	} else if ub, has := ubOf(d.Len); has && ub <= utf8MaxModel {
+		n = int(ub)
+	} else {
+		return nil, nil, false
+	}
+	start := make([]*Term, n+5)
+	for i := range start {
+		start[i] = False
+	}
+	start[0] = True
+	before := make([]*Term, n+1) // runes that start before position i
+	count = CI(0)
+	heres := make([]*Term, n)
+	for i := 0; i < n; i++ {
+		i := i
+		before[i] = count
+		inside := Lt(CI(int64(i)), d.Len, true)
+		here := And(start[i], inside)
+		heres[i] = here
+		if here == False {
+			continue
+		}
+		w, _ := utf8At(func(k int) *Term { return d.At(CI(int64(i + k))) }, func(k int) *Term { return Lt(CI(int64(i+k)), d.Len, true) })
+		count = Add(count, Ite(here, CI(1), CI(0)))
+		for k := 1; k <= 4; k++ {
+			start[i+k] = Or(start[i+k], And(here, Eq(w, CI(int64(k)))))
+		}
+	}
+	off = d.Len
+	for i := n - 1; i >= 0; i-- {
+		if heres[i] == False {
+			continue
+		}
+		off = Ite(And(heres[i], Eq(before[i], CI(int64(p)))), CI(int64(i)), off)
+	}
+	return off, count, true
+}
